@@ -23,6 +23,7 @@ type faultConn struct {
 
 	failReadAt  int64 // k-th Read returns an injected error (0 = never)
 	failWriteAt int64 // k-th Write and every later Write returns an injected error
+	timeoutKind bool  // the injected write error is a net.Error with Timeout() true (write deadline exceeded)
 	slowWriteAt int64 // k-th Write first waits for gate
 	gate        chan struct{}
 	slowEntered chan struct{} // closed when the slow Write is waiting at the gate
@@ -66,6 +67,13 @@ func (f *faultConn) wasHit() bool {
 var errInjectedRead = errors.New("injected read fault")
 var errInjectedWrite = errors.New("injected write fault")
 
+// what a write returns when the peer has not drained the socket for the write deadline
+type timeoutErr struct{}
+
+func (timeoutErr) Error() string   { return "injected write fault: i/o timeout" }
+func (timeoutErr) Timeout() bool   { return true }
+func (timeoutErr) Temporary() bool { return true }
+
 func (f *faultConn) Read(b []byte) (int, error) {
 	if f.armed.Load() {
 		k := f.reads.Add(1)
@@ -84,6 +92,9 @@ func (f *faultConn) Write(b []byte) (int, error) {
 			<-f.gate
 		}
 		if f.decide(f.failWriteAt != 0 && k >= f.failWriteAt) {
+			if f.timeoutKind {
+				return 0, &net.OpError{Op: "write", Net: "pipe", Err: timeoutErr{}}
+			}
 			return 0, errInjectedWrite
 		}
 	}
